@@ -7,7 +7,8 @@ def netCfg : NetCfg :=
   { skip := Gen.C09.netSkipLines
     rfind := Gen.C09.netUsesRfind
     unpack := Gen.C09.netUnpack
-    output := Gen.C09.netOutput }
+    output := Gen.C09.netOutput
+    stripSet := Gen.C09.netNameStrip }
 
 def diskCfg : DiskCfg :=
   { branches := Gen.C09.diskBranches.map fun b =>
